@@ -10,10 +10,11 @@
    value, stars and double stars, no root, an environment with distinct keys.
    {android_locale}, roots, nested variable values and everything else are
    covered by the correspondence suites of the check, not by these theorems. *)
-From Coq Require Import NArith List Bool Arith.
+From Coq Require Import NArith List Bool Arith Lia.
 From CL Require Import Base.Sx Base.Res Base.Str Regex.Rx Model.Pattern Model.Matcher
   Proofs.MatcherSpec Proofs.MatcherSound Proofs.MatcherExpand Proofs.MatcherComplete
-  Proofs.PathUnique Proofs.MatcherUnique Proofs.MatcherRoundtrip.
+  Proofs.PathUnique Proofs.MatcherUnique Proofs.MatcherRoundtrip Proofs.MatcherRooted
+  Proofs.AndroidProofs Proofs.AndroidLayout.
 Import ListNotations.
 
 (* Soundness of matching.  If a matcher of the grammar matches a path with
@@ -185,4 +186,137 @@ Proof.
   split; [split; [reflexivity|split; [reflexivity|constructor]]|].
   split; [vm_compute; reflexivity|]. split; [vm_compute; reflexivity|].
   vm_compute. discriminate.
+Qed.
+
+(* ---- rooted matchers -------------------------------------------------------------------
+   Proofs/MatcherRooted.v.  Matcher.__init__ stores mozpath.abspath(root) + "/" (the model's
+   [with_root] appends "/" to a root given absolute and normalised; abspath itself is not
+   modelled).  Pattern.regex_pattern puts re.escape(root) in front of the pattern's regular
+   expression, Pattern.expand the root itself, unless the first node expands to an absolute
+   path.  In the model re.escape(root) is one single-character literal regex per character
+   of the root, whatever the character (the REGEX correspondence suite pins this against
+   CPython's reading of the compiled text on roots with metacharacters).  When the first
+   node has a fixed text ([rooted_ok]), the rooted matcher is, for match / sub / prefix /
+   str, the unrooted matcher [unroot M] with the literal node [root_part root t] in front;
+   [simple_rooted] / [in_grammar_rooted] ask that reading to be in the grammar. *)
+Theorem C11_match_sound_rooted : forall M path d, simple_rooted M -> match_ M path = Ok (Some d) ->
+  (exists p0, upto_final_newline path p0 /\
+              expand_pattern (sub_env d (m_env M)) false (m_pat M) = Ok p0) /\
+  kinds_ok (m_pat (unroot M)) d.
+Proof. exact match_sound_rooted. Qed.
+
+Theorem C11_sub_self_rooted : forall M path d, simple_rooted M -> match_ M path = Ok (Some d) ->
+  exists p0, upto_final_newline path p0 /\ sub M M path = Ok (Some p0).
+Proof. exact sub_self_rooted. Qed.
+
+(* the root is literal text: it matches itself and nothing else, character by character,
+   whatever characters it contains *)
+Theorem C11_root_is_literal : forall M path d r n0 ns t, simple_rooted M ->
+  p_root (m_pat M) = Some r -> p_nodes (m_pat M) = n0 :: ns ->
+  fixed_text (m_env M) n0 = Some t ->
+  match_ M path = Ok (Some d) -> starts_with (root_part r t) path = true.
+Proof. exact rooted_match_starts_with_root. Qed.
+
+(* the round trip with a root on either side, both sides, or none *)
+Theorem C11_roundtrip_rooted : forall P Q path path',
+  in_grammar_rooted P -> in_grammar_rooted Q -> same_wildcards P Q ->
+  no_final_newline path -> no_final_newline path' ->
+  sub P Q path = Ok (Some path') ->
+  (exists d', match_ Q path' = Ok (Some d')) /\ sub Q P path' = Ok (Some path).
+Proof. exact roundtrip_rooted. Qed.
+
+(* browser/**/x-*.ftl under /data/c++/strings  <->  {base}/{locale}/**/y_*.ftl under
+   "/x/gecko-strings (copy)" with base = l10n, locale = de *)
+Definition exr_root_p : str := of_ascii [47;100;97;116;97;47;99;43;43;47;115;116;114;105;110;103;115].
+Definition exr_root_q : str := of_ascii [47;120;47;103;101;99;107;111;45;115;116;114;105;110;103;115;32;40;99;111;112;121;41].
+Definition exr_ref : str := of_ascii [98;114;111;119;115;101;114;47;42;42;47;120;45;42;46;102;116;108].
+Definition exr_env : list (str * str) :=
+  [(of_ascii [108;111;99;97;108;101], of_ascii [100;101]); (of_ascii [98;97;115;101], of_ascii [108;49;48;110])].
+Definition exr_path : str := of_ascii [47;100;97;116;97;47;99;43;43;47;115;116;114;105;110;103;115;47;98;114;111;119;115;101;114;47;97;47;98;47;120;45;113;46;102;116;108].
+Definition exr_mapped : str := of_ascii [47;120;47;103;101;99;107;111;45;115;116;114;105;110;103;115;32;40;99;111;112;121;41;47;108;49;48;110;47;100;101;47;97;47;98;47;121;95;113;46;102;116;108].
+
+Example C11_example_rooted : exists P Q,
+  mk_matcher exr_ref [] (Some exr_root_p) = Ok P /\
+  mk_matcher ex_l10n exr_env (Some exr_root_q) = Ok Q /\
+  in_grammar_rooted P /\ in_grammar_rooted Q /\ same_wildcards P Q /\
+  sub P Q exr_path = Ok (Some exr_mapped) /\ sub Q P exr_mapped = Ok (Some exr_path) /\
+  (* the metacharacters of the root are not regex syntax: c++ does not match cc *)
+  match_ P (of_ascii [47;100;97;116;97;47;99;99;47;115;116;114;105;110;103;115;47;98;114;111;119;115;101;114;47;120;45;113;46;102;116;108]) = Ok None.
+Proof.
+  destruct (mk_matcher exr_ref [] (Some exr_root_p)) as [P|] eqn:EP; [|vm_compute in EP; discriminate].
+  destruct (mk_matcher ex_l10n exr_env (Some exr_root_q)) as [Q|] eqn:EQ; [|vm_compute in EQ; discriminate].
+  exists P, Q. vm_compute in EP. inversion EP; subst P. vm_compute in EQ. inversion EQ; subst Q.
+  split; [reflexivity|]. split; [reflexivity|].
+  split; [|split; [|split; [reflexivity|split; [vm_compute; reflexivity|split; vm_compute; reflexivity]]]].
+  - split.
+    + split; [constructor|]. simpl. split; [auto|]. eexists. eexists. eexists. split; reflexivity.
+    + split; [split; [reflexivity|split; [reflexivity|constructor]]|].
+      split; [eexists; eexists; vm_compute; reflexivity|].
+      split; [repeat constructor|]. split; [repeat constructor|].
+      right. vm_compute.
+      eexists []. exists [47%N], [120%N; 45%N], [(WStar, [46; 102; 116; 108]%N)].
+      repeat split; auto.
+  - split.
+    + split; [vm_compute; repeat constructor; simpl; intuition discriminate|].
+      simpl. split; [auto|]. eexists. eexists. eexists. split; [reflexivity|vm_compute; reflexivity].
+    + split; [split; [vm_compute; reflexivity|split; [reflexivity|]]|].
+      { vm_compute. repeat constructor; simpl; intuition discriminate. }
+      split; [eexists; eexists; vm_compute; reflexivity|].
+      split.
+      { repeat constructor; simpl; intros k H; inversion H. }
+      split.
+      { repeat constructor; simpl; discriminate. }
+      right. vm_compute.
+      eexists []. exists [47%N], [121%N; 95%N], [(WStar, [46; 102; 116; 108]%N)].
+      repeat split; auto.
+Qed.
+
+(* ---- {android_locale} <-> {locale} layouts, locale detected from the path ------------
+   Proofs/AndroidLayout.v.  Patterns  a{android_locale}b  and  c{locale}d  (a, b, c, d
+   literal; b and d non-empty without newline; NO bound locale on either side): for every
+   locale l of the BCP 47 grammar of C12_android_roundtrip with qualifier A = to_android l,
+   the android layout maps  a A b  to  c l d  and back.  The group is the lazy `.+?`; the
+   engine's answer is pinned by soundness + the single hole, its existence by completeness;
+   the locale comes out of the dictionary through to_bcp47 (to_android l) = l. *)
+Theorem C11_android_layout_roundtrip : forall a b c d k k' l A,
+  bcp47_grammar l -> to_android l = Ok A ->
+  b <> [] -> has_char nl b = false -> d <> [] -> has_char nl d = false ->
+  sub (android_side a b k) (locale_side c d k') (a ++ A ++ b) = Ok (Some (c ++ l ++ d)) /\
+  sub (locale_side c d k') (android_side a b k) (c ++ l ++ d) = Ok (Some (a ++ A ++ b)).
+Proof. exact android_layout_roundtrip. Qed.
+
+(* res/values-{android_locale}/strings.xml <-> l10n/{locale}/strings.xml are such sides
+   (as the parser builds them), he-Latn-IL is in the grammar, its qualifier b+iw+Latn+IL *)
+Example C11_android_layout_example :
+  mk_matcher (of_ascii [114;101;115;47;118;97;108;117;101;115;45;123;97;110;100;114;111;105;100;95;108;111;99;97;108;101;125;47;115;116;114;105;110;103;115;46;120;109;108]) [] None
+    = Ok (android_side (of_ascii [114;101;115;47;118;97;108;117;101;115;45]) (of_ascii [47;115;116;114;105;110;103;115;46;120;109;108]) 3) /\
+  mk_matcher (of_ascii [108;49;48;110;47;123;108;111;99;97;108;101;125;47;115;116;114;105;110;103;115;46;120;109;108]) [] None
+    = Ok (locale_side (of_ascii [108;49;48;110;47]) (of_ascii [47;115;116;114;105;110;103;115;46;120;109;108]) 3) /\
+  bcp47_grammar (of_ascii [104;101;45;76;97;116;110;45;73;76]) /\
+  sub (android_side (of_ascii [114;101;115;47;118;97;108;117;101;115;45]) (of_ascii [47;115;116;114;105;110;103;115;46;120;109;108]) 3)
+      (locale_side (of_ascii [108;49;48;110;47]) (of_ascii [47;115;116;114;105;110;103;115;46;120;109;108]) 3)
+      (of_ascii [114;101;115;47;118;97;108;117;101;115;45;98;43;105;119;43;76;97;116;110;43;73;76;47;115;116;114;105;110;103;115;46;120;109;108])
+    = Ok (Some (of_ascii [108;49;48;110;47;104;101;45;76;97;116;110;45;73;76;47;115;116;114;105;110;103;115;46;120;109;108])).
+Proof.
+  split; [vm_compute; reflexivity|]. split; [vm_compute; reflexivity|]. split; [|vm_compute; reflexivity].
+  exists (of_ascii [104;101]), (of_ascii [45;76;97;116;110;45;73;76]). split; [reflexivity|]. split.
+  - apply L_two; unfold lower; simpl; try lia; reflexivity.
+  - apply T_both; unfold lower, upper; simpl; lia.
+Qed.
+
+(* ---- nested values: the listed finding ---------------------------------------------------
+   {v}/{w}/* with v = x, w = {v}-n: every variable has a value (the pattern expands, no
+   cycle), but matching raises: the regular expression defines the group v twice
+   (known finding match-raises-nested-variable-reused).  C12_expand_match_nested therefore
+   carries the premise that the regular expression compiles. *)
+Theorem C11_nested_variable_reused_refuted : exists M,
+  mk_matcher (of_ascii [123;118;125;47;123;119;125;47;42])
+             [(of_ascii [118], of_ascii [120]); (of_ascii [119], of_ascii [123;118;125;45;110])] None = Ok M /\
+  expand_pattern (sub_env [(star_name 1, Some (of_ascii [102]))] (m_env M)) false (m_pat M)
+    = Ok (of_ascii [120;47;120;45;110;47;102]) /\
+  match_ M (of_ascii [120;47;120;45;110;47;102]) = Raise ReError.
+Proof.
+  match goal with |- exists M, ?mk = Ok M /\ _ => destruct mk as [M|] eqn:E; [|vm_compute in E; discriminate] end.
+  exists M. vm_compute in E. inversion E; subst M. split; [reflexivity|].
+  split; vm_compute; reflexivity.
 Qed.
